@@ -46,5 +46,6 @@ package inmem
 //@ requires s != nil && id != nil && id.Type != nil && id.Tenancy != nil
 //@ requires[stored-well-formed] T_resources(id) != nil ==> T_resources(id).Id != nil && T_resources(id).Id.Type != nil
 //@ ensures[found] err == nil ==> r == T_resources(id) && r != nil
-//@ ensures[other-lifetime-not-found] T_resources(id) != nil && id.Uid != "" && T_resources(id).Id.Uid != id.Uid ==> err != nil
-//@ ensures[absent-not-found] T_resources(id) == nil ==> err != nil
+//@ ensures[other-lifetime-not-found] T_resources(id) != nil && id.Uid != "" && T_resources(id).Id.Uid != id.Uid ==> r == nil && err == storage.ErrNotFound
+//@ ensures[absent-not-found] T_resources(id) == nil ==> r == nil && err == storage.ErrNotFound
+//@ ensures[nothing-handed-out-on-error] err != nil ==> r == nil
